@@ -352,4 +352,34 @@ example :
     (execT [⟨true, .binary, [⟨.str "i", ⟨.integer, 0, 5⟩, 1⟩], [], 0⟩, ⟨true, .binary, [⟨.str "i", ⟨.integer, 0, 7⟩, 1⟩], [], 0⟩]
        (progSubSame 0 1 2)).2 = some .value := by decide +kernel
 
+
+/-! ### `x * x` in closed form (single-variable operands, any label, any biases) -/
+
+/-- `Binary(l, b) * Binary(l, c)` is the LINEAR model `b·c·x` (a BINARY BQM, no interaction, no offset) -/
+theorem square_binary_is_linear (l : Label) (b c : Rat) :
+    mMul ⟨false, .binary, [⟨l, bqmInfo .binary, b⟩], [], 0⟩ ⟨false, .binary, [⟨l, bqmInfo .binary, c⟩], [], 0⟩
+      = .ok ⟨false, .binary, [⟨l, bqmInfo .binary, b * c⟩], [], 0⟩ := by
+  simp [mMul, Model.isLinear, bqmDiffer, bqmMulSame, mulOuter, mulInner, bqmMulStep, addLinear, Model.has, findVar, emptyBQM,
+        mulTail, Model.addOffset, bumpVar]
+
+/-- `Spin(l, b) * Spin(l, c)` is the CONSTANT `b·c` (a SPIN BQM that still lists `l`, with bias 0) -/
+theorem square_spin_is_constant (l : Label) (b c : Rat) :
+    mMul ⟨false, .spin, [⟨l, bqmInfo .spin, b⟩], [], 0⟩ ⟨false, .spin, [⟨l, bqmInfo .spin, c⟩], [], 0⟩
+      = .ok ⟨false, .spin, [⟨l, bqmInfo .spin, 0⟩], [], b * c⟩ := by
+  simp [mMul, Model.isLinear, bqmDiffer, bqmMulSame, mulOuter, mulInner, bqmMulStep, addLinear, Model.has, findVar, emptyBQM,
+        mulTail, Model.addOffset, bumpVar]
+
+/-- `Integer(l, b, lo, hi) * Integer(l, c, lo, hi)` is the SELF-LOOP `b·c·i·i` (bounds kept, linear bias 0) -/
+theorem square_integer_is_selfloop (l : Label) (b c lo hi : Rat) :
+    mMul ⟨true, .binary, [⟨l, ⟨.integer, lo, hi⟩, b⟩], [], 0⟩ ⟨true, .binary, [⟨l, ⟨.integer, lo, hi⟩, c⟩], [], 0⟩
+      = .ok ⟨true, .binary, [⟨l, ⟨.integer, lo, hi⟩, 0⟩], [⟨l, l, b * c⟩], 0⟩ := by
+  simp [mMul, qmMul, Model.isLinear, addVariables, addVariable, emptyQM, mulOuter, mulInner, qmMulStep, addLinear, addQuadratic, vtOf,
+        Model.has, findVar, mulTail, Model.addOffset, bumpVar, bumpQuad]
+
+/-- `Real(l, b) * Real(l, c)`: REAL variables take no interactions, `add_quadratic` raises ValueError -/
+theorem square_real_rejected (l : Label) (b c lo hi : Rat) :
+    mMul ⟨true, .binary, [⟨l, ⟨.real, lo, hi⟩, b⟩], [], 0⟩ ⟨true, .binary, [⟨l, ⟨.real, lo, hi⟩, c⟩], [], 0⟩
+      = .error .value := by
+  simp [mMul, qmMul, Model.isLinear, addVariables, addVariable, emptyQM, mulOuter, mulInner, qmMulStep, addQuadratic, vtOf, findVar]
+
 end C06
